@@ -174,23 +174,46 @@ def revcomp_symmetry(ctx, kc: KitClass, rule: str) -> bool:
 # C11
 
 
+# The vector classes confirmed by hand (on the tree the checks were built on) to embed the sites of the next level: the
+# reference for later changes.  A class of this table that still exists is an instance whether or not its structure still
+# differs from the generic one -- when it no longer does, its products are no modules of the next level, which is what the
+# inclusion obligation then reports (instead of the instance silently dropping out of the count).
+CONFIRMED_NEXT_LEVEL_VECTORS = ("CIDAREntryVector", "CIDARCassetteVector", "CIDARDeviceVector", "EcoFlexCassetteVector",
+                                "EcoFlexDeviceVector", "MoCloEntryVector", "MoCloCassetteVector")
+
+
 def next_level_instances(ctx) -> List[Tuple[KitClass, Optional[KitClass], KitClass]]:
     """(vector, product-or-None, next-level module class)."""
     inv = [k for k in ctx.inventory if k.concrete]
     out = []
+    p = ctx.program
+    generic_of = {"vector": p.get_class("moclo.core.vectors.AbstractVector"), "module": p.get_class("moclo.core.modules.AbstractModule")}
+    memo = {}
+
+    def custom(k) -> bool:
+        """the class's structure is not the generic one of moclo.core for its enzyme (wherever the code that makes it so
+        lives: in the class, in a base class of the kit, in a mixin of moclo.core)"""
+        if k.name not in memo:
+            base = generic_of.get(k.role)
+            raw = base.attrs.get("structure") if base is not None else None
+            if not isinstance(raw, FuncInfo) or k.pattern_text is None:
+                memo[k.name] = k.structure_owner is not None and k.structure_owner.module is not None and k.structure_owner.module.name.startswith("moclo.kits.") and not _delegates_to_super(k)
+            else:
+                try:
+                    memo[k.name] = ctx.folder.call_func(raw, k.ci, [], {}) != k.pattern_text
+                except AnalysisError:
+                    memo[k.name] = True
+        return memo[k.name]
+
     for v in inv:
         if v.role != "vector" or v.is_part or v.level is None:
             continue
-        # a structure written in the kit (in the class or in a base class of the kit), not the generic one of moclo.core
-        if v.structure_owner is None or v.structure_owner.module is None or not v.structure_owner.module.name.startswith("moclo.kits."):
-            continue
-        if _delegates_to_super(v):
+        if not custom(v) and v.ci.name not in CONFIRMED_NEXT_LEVEL_VECTORS:
             continue
         cands = [m for m in inv if m.role == "module" and not m.is_part and m.ci.module is v.ci.module and m.level == v.level]
         if len(cands) != 1:
             # several module classes of that level: the one with the generic structure of moclo.core (the others are products)
-            cands = [m for m in cands
-                     if m.structure_owner is None or m.structure_owner.module is None or not m.structure_owner.module.name.startswith("moclo.kits.")]
+            cands = [m for m in cands if not custom(m)]
         if len(cands) != 1:
             raise AnalysisError(
                 "cannot pair %s with the module class of its level (%d candidates)" % (v.name, len(cands))
@@ -198,13 +221,12 @@ def next_level_instances(ctx) -> List[Tuple[KitClass, Optional[KitClass], KitCla
         out.append((v, None, cands[0]))
     # products that carry the next level's sites themselves
     for m in inv:
-        if m.role == "module" and not m.is_part and m.level is not None and m.structure_owner is not None and m.structure_owner.module is not None \
-                and m.structure_owner.module.name.startswith("moclo.kits.") and not _delegates_to_super(m):
+        if m.role == "module" and not m.is_part and m.level is not None and custom(m):
             # the vector of the same level+1 in the same module, and the module class of that level
             vecs = [v for v in inv if v.role == "vector" and not v.is_part and v.ci.module is m.ci.module
                     and v.level == (m.level + 1) and v.cutter == m.cutter]
             nxt = [x for x in inv if x.role == "module" and not x.is_part and x.ci.module is m.ci.module
-                   and x.level == m.level + 1 and not (x.structure_owner is not None and x.structure_owner.module is not None and x.structure_owner.module.name.startswith("moclo.kits."))]
+                   and x.level == m.level + 1 and not custom(x)]
             if len(vecs) != 1 or len(nxt) != 1:
                 raise AnalysisError("cannot pair product %s with its vector / next level" % m.name)
             out.append((vecs[0], m, nxt[0]))
@@ -414,6 +436,21 @@ def screen_obligation(ctx, kc: KitClass, rule: str, informational: bool = False,
         return r.ob(rule, kc.name, not det, "; ".join(det) + " [%s]" % raw.qualname, where)
     screens = screen_of(ctx, raw)
     if not screens:
+        # the evaluation of _match (K21) gave no verdict and the guard is not spelled out in _match itself: when a digest is
+        # within reach of it (a helper, a hook method), what that digest decides is not known here -- undecided, not absent
+        from .roles import reach
+
+        within = [raw] + [g for g in reach(p, raw, 3)]
+        me = raw.node.args.args[0].arg if raw.node.args.args else "self"
+        for n in ast.walk(raw.node):
+            if isinstance(n, ast.Attribute) and isinstance(n.value, ast.Name) and n.value.id == me:
+                o2, g2 = p.class_attr_def(kc.ci, n.attr)
+                if isinstance(g2, FuncInfo):
+                    within.append(g2)
+                    within += reach(p, g2, 2)
+        if any(isinstance(n, ast.Attribute) and n.attr == "catalyse" for g in within for n in ast.walk(g.node)):
+            raise AnalysisError("%s: the illegal-site screen of %s is not written in _match itself and its evaluation gave no verdict; "
+                                "what the digest within its reach decides is not known" % (where, raw.qualname))
         return r.ob(rule, kc.name, False,
                     "_match resolves to %s which has no illegal-site screen (len(cutter.catalyse(...)) guard raising)" % raw.qualname,
                     where)
